@@ -212,6 +212,176 @@ def run_rd(eng, p):
                        'token of the input'})
 
 
+# -- nodes.substitute with structural keys -------------------------------------------
+
+SB = 'ddsmt.nodes.substitute'
+KEY = z3.Function('KEY', Struct, z3.BoolSort())
+VAL = z3.Function('VAL', Struct, SeqS)
+SUB = z3.Function('SUB', Struct, SeqS)
+SUBL = z3.Function('SUBL', SeqS, SeqS)
+
+
+class SubSpec(fr.IdentitySpec):
+    """Reference substitution for a dictionary with structural keys only:
+
+        SUB(s) = VAL(s)               if KEY(s)   (0 or 1 replacement nodes,
+                                                   inserted as given)
+               = [tup(SUBL(kids s))]  if s is a list
+               = [s]                  otherwise
+        SUBL([]) = [],  SUBL(x . r) = SUB(x) ++ SUBL(r)"""
+
+    def item(self, s):
+        return SUB(s)
+
+    def seq(self, q):
+        return SUBL(q)
+
+    def target(self, s):
+        return SUBL(Struct.kids(s))
+
+    def unfold(self, p, s):
+        p.assume(SUB(s) == z3.If(
+            KEY(s), VAL(s), z3.If(
+                Struct.is_tup(s),
+                z3.Unit(Struct.tup(SUBL(Struct.kids(s)))), z3.Unit(s))))
+        p.assume(z3.Length(VAL(s)) <= 1)
+
+    def marker(self, p, s):
+        # a marker is pushed only for a node that is not a key
+        p.assume(z3.Not(KEY(s)))
+
+
+class StructDict(sym.Abstract):
+    """repl with structural keys only (arbitrary which, arbitrary values)"""
+
+    def __init__(self, eng):
+        self.eng = eng
+        self.lookups = []
+
+    def contains(self, k):
+        if isinstance(k, (int, SNum)):
+            return False  # no identity keys (stated)
+        return mk_bool(KEY(nm.S(k)))
+
+    def get(self, k):
+        p = cur()
+        s = nm.S(k)
+        if not self.eng.truth(mk_bool(KEY(s))):
+            raise PyRaise(KeyError('node'))
+        p.assume(z3.Length(VAL(s)) <= 1)
+        if p.decide(z3.Length(VAL(s)) == 0):
+            v = None
+        else:
+            v = nm.lazy_node(self.eng, p, p.fresh_name('repl'))
+            p.assume(VAL(s) == z3.Unit(nm.S(v)))
+        self.lookups.append((k, v))
+        return v
+
+
+def setup_sb(eng):
+    base_setup(eng)
+    nm.use_eq_contract(eng)
+    eng.spec_required.add(SB)
+    eng.contains_handlers[StructDict] = lambda e, d, k: d.contains(k)
+    eng.getitem_handlers[StructDict] = lambda e, d, k: d.get(k)
+    eng.len_handlers[StructDict] = lambda e, d: SNum(
+        cur().ghost['repl_len'])
+    eng.truth_handlers[StructDict] = lambda e, d: True
+
+    def extra(e, env_, p):
+        env_.vars['changed'] = sym.mk_bool(p.fresh_bool('changed'))
+
+    base = loop_spec(eng, 'substitute', 'C11', fresh_only=False,
+                     extra_sets=('changed', ), extra_havoc=extra)
+    end0 = base.on_iter_end
+    start0 = base.on_iter_start
+
+    def start(e, env_, p):
+        start0(e, env_, p)
+        p.ghost['lookups0'] = len(env_.vars['repl'].lookups)
+        v = env_.vars['visit']
+        p.ghost['visit_parts0'] = len(v.parts) if isinstance(
+            v, wl.AbsList) else None
+
+    def end(e, env_, p):
+        end0(e, env_, p)
+        repl = env_.vars['repl']
+        new = repl.lookups[p.ghost['lookups0']:]
+        items = new_items(env_.vars['args'], p.ghost['snap'])
+        if new:
+            k, v = new[-1]
+            ok = (items == [] if v is None else
+                  (len(items) == 1 and items[0] is v))
+            p.oblige('C11/substitute/replacement-is-inserted-as-given', ok,
+                     info={'signature': 'the replacement object is not what '
+                           'ends up in the result (or a deleted node left '
+                           'something behind)'})
+            vis = env_.vars['visit']
+            p.oblige('C11/substitute/replacement-is-not-traversed',
+                     isinstance(vis, wl.AbsList) and
+                     len(vis.parts) <= p.ghost['visit_parts0'],
+                     info={'signature': 'the replacement (or the replaced '
+                           'node) is put on the work list again'})
+            p.oblige('C11/substitute/a-replacement-counts-as-a-change',
+                     env_.vars['changed'] is True)
+
+    base.on_iter_start = start
+    base.on_iter_end = end
+    eng.loop_specs[(SB, 'while visit')] = base
+
+
+def run_sb(eng, p):
+    nodes_mod = eng.load_module('ddsmt.nodes')
+    forest, F = wl.forest(eng, p)
+    p.ghost['frames'] = fr.Frames(eng, F, SubSpec())
+    n = p.fresh_int('repl_len')
+    p.assume(n >= 1)
+    p.ghost['repl_len'] = n
+    repl = StructDict(eng)
+    err = None
+    r = None
+    try:
+        r = eng.call(nodes_mod.g['substitute'], [forest, repl], {})
+    except PyRaise as ex:
+        err = ex
+    p.oblige('C04/substitute/raises-nothing', err is None,
+             info={'outcome': repr(err.value) if err else '',
+                   'signature': type(err.value).__name__ if err else ''})
+    if err is not None:
+        return
+    if r is forest:
+        # nothing was replaced: the argument itself is returned (that the
+        # reference substitution is the identity then is covered by the
+        # shape-bounded contract only)
+        p.oblige('cover/substitute/returns-the-argument-when-unchanged',
+                 False, kind='cover')
+        return
+    ok = isinstance(r, (fr.ResList, list))
+    p.oblige('C11/substitute/returns-a-list', ok, info=repr(r)[:100])
+    if ok:
+        p.oblige('C11/substitute/result-is-the-reference-substitution',
+                 mk_bool(fr.list_den(r) == SUBL(F)),
+                 info={'signature': 'the result differs from the reference '
+                       'substitution (structural keys)'})
+
+
+def substitute_contracts(tier):
+    A = ['rebuilding traversals: per-level invariant over abstract stacks '
+         '(contracts/frames.py); deeper levels materialise on demand',
+         nm.ASSUME_LAZY, nm.ASSUME_EQ_CONTRACT,
+         'the dictionary has structural (Node) keys only, arbitrary which '
+         'and with arbitrary values (a node or None); identity (int) keys '
+         'are covered by the shape-bounded contract',
+         'reference substitution SUB/SUBL uninterpreted, unfolded for the '
+         'node taken from the work list']
+    rp = wl.harness_replay('harness/nodes_native.py', ['substitute', 4],
+                           ['C11'])
+    return [
+        Contract('substitute[any input, structural keys]', [SB], run_sb,
+                 setup=setup_sb, assumptions=A, replay=rp),
+    ]
+
+
 def contracts(tier):
     A = ['rebuilding traversals: per-level invariant over abstract stacks '
          '(contracts/frames.py); deeper levels materialise on demand',
